@@ -12,10 +12,13 @@
    * `nop_table_decodes`      — kernel-checked: each entry n of the regenerated NOP table (nop, nop2 … nop11,
                                 also the padding of C13) is ONE instruction that the decoder reads as a nop of
                                 exactly n bytes;
-   * `no_operand_lines`       — kernel-checked, text level: the no-operand instructions.
+   * `no_operand_lines`       — kernel-checked, text level: the no-operand instructions;
+   * `letter_case_irrelevant` — kernel-checked, for EVERY line and option byte: writing any of its letters in the other case
+                                gives the same per-line result, so the sweep over lower-case spellings covers upper and mixed case.
 -/
 import AL.Properties.Sweep.C01
 import AL.Impl.Parser
+import AL.Lemmas.FilterLemmas
 namespace AL.Properties.C01
 open AL AL.Impl AL.Gen AL.Spec.X86
 
@@ -40,5 +43,12 @@ set_option maxRecDepth 100000 in
 theorem no_operand_lines :
     (["clc", "cpuid", "lfence", "mfence", "sfence", "rdpmc", "rdtsc", "rdtscp", "ret", "xend", "nop"].all
       fun t => lineDecodes 14 t t) = true := by decide +kernel
+
+/-- **letter case**: two texts that agree after folding A–Z to a–z give the same per-line result (bytes or rejection) -/
+theorem letter_case_irrelevant (opt : Nat) (t1 t2 : Str) (h : t1.map tolower = t2.map tolower) :
+    (assembleLine opt t1).1 = (assembleLine opt t2).1 :=
+  AL.Lemmas.assembleLine_of_filter opt t1 t2 (by rw [AL.Lemmas.filterLine_case t1 t2 h])
+
+example : (toStr "MOVZX EAX, BL").map tolower = (toStr "movzx eax, bl").map tolower := by decide
 
 end AL.Properties.C01
